@@ -59,6 +59,10 @@ pub struct Scenario {
     /// members under attack sit beyond the verifier's internal chunk limit (0 = none)
     #[serde(default)]
     pub fillers: usize,
+    /// verify as the commitment owner (RecoverAndVerify, statements carrying their recovery seeds)
+    /// instead of as a public verifier
+    #[serde(default)]
+    pub owner_mode: bool,
 }
 
 pub struct C08;
@@ -99,7 +103,7 @@ fn execute(sc: &Scenario, st: &mut RunStats) -> Vec<Violation> {
         };
         b_points.push(b);
         honest.push(parts);
-        statements.push(built.public_statement.clone());
+        statements.push(if sc.owner_mode { built.statement.clone() } else { built.public_statement.clone() });
     }
     // filler: one more honest single-commitment proof, repeated in front of the members
     let filler = if sc.fillers > 0 {
@@ -119,6 +123,9 @@ fn execute(sc: &Scenario, st: &mut RunStats) -> Vec<Violation> {
     };
     if sc.fillers >= 256 {
         st.fault("members_beyond_chunk_limit");
+    }
+    if sc.owner_mode {
+        st.fault("owner_mode_recover_and_verify");
     }
     let mut state = State {
         parts: honest.clone(),
@@ -159,7 +166,7 @@ fn execute(sc: &Scenario, st: &mut RunStats) -> Vec<Violation> {
         ord_sts.extend(state.order.iter().map(|i| statements[*i].clone()));
         ord_pr.extend(state.order.iter().map(|i| proofs[*i].clone()));
         ctxs.extend(state.order.iter().map(|i| &sc.members[*i].ctx));
-        let obs = observe_verify(&ctxs, &ord_sts, &ord_pr, VerifyAction::VerifyOnly)
+        let obs = observe_verify(&ctxs, &ord_sts, &ord_pr, if sc.owner_mode { VerifyAction::RecoverAndVerify } else { VerifyAction::VerifyOnly })
             .map_err(|e| Violation::new("harness:observation_unavailable", "observe", e.0))?;
         st.evals += 1;
         let accepted = match &obs.result {
@@ -346,12 +353,17 @@ impl Check for C08 {
         let bits = *rng.pick(&[2usize, 2, 4, 8, 16]);
         let ext = if rng.chance(1, 2) { 1 } else { rng.range(1, 6) as usize };
         let n = rng.range(2, 5) as usize;
+        let owner_mode = rng.chance(1, 3);
         let members: Vec<Member> = (0..n)
             .map(|_| {
                 let m = *rng.pick(&[1usize, 1, 2, 4]);
                 let cap = if rng.chance(1, 4) { m * 2 } else { m };
                 let cfg = Config { bits, m, cap, ext };
-                Member { m, cap, wit: WitnessSpec::generate(rng, &cfg, false), ctx: Context::generate(rng), rng_seed: rng.next_u64() }
+                let mut wit = WitnessSpec::generate(rng, &cfg, false);
+                if owner_mode && m == 1 {
+                    wit.seed_nonce = Some(rng.next_u64() | 2);
+                }
+                Member { m, cap, wit, ctx: Context::generate(rng), rng_seed: rng.next_u64() }
             })
             .collect();
         let i = rng.usize_below(n);
@@ -377,7 +389,7 @@ impl Check for C08 {
             _ => 0,
         };
         let fillers = if fillers > 0 && tier == Tier::Thorough && rng.chance(1, 4) { 512 + rng.usize_below(8) } else { fillers };
-        Scenario { bits, ext, members, i, j, l: rng.usize_below(n), k: rng.usize_below(ext), c_seed: rng.next_u64(), moves, fillers }
+        Scenario { bits, ext, members, i, j, l: rng.usize_below(n), k: rng.usize_below(ext), c_seed: rng.next_u64(), moves, fillers, owner_mode }
     }
 
     fn execute(&self, sc: &Scenario, st: &mut RunStats) -> Vec<Violation> {
@@ -419,6 +431,11 @@ impl Check for C08 {
             s.k = 0;
             v.push(s);
         }
+        if sc.owner_mode {
+            let mut s = sc.clone();
+            s.owner_mode = false;
+            v.push(s);
+        }
         if sc.fillers > 0 {
             let mut s = sc.clone();
             s.fillers = 0;
@@ -435,7 +452,7 @@ impl Check for C08 {
     fn required_probes(&self, _tier: Tier) -> Vec<&'static str> {
         vec![
             "adaptive_cancel_pair", "adaptive_touch_r1", "adaptive_touch_s1", "adaptive_permute", "adaptive_cancel_triple",
-            "resubmit", "ratio_checked_after_response_change", "members_beyond_chunk_limit",
+            "resubmit", "ratio_checked_after_response_change", "members_beyond_chunk_limit", "owner_mode_recover_and_verify",
         ]
     }
 }
